@@ -13,6 +13,8 @@ length, element sub-patterns, one starred capture) and mapping patterns (isinsta
   dict(a=x, b=y) / dict()  ->  {'a': x, 'b': y} / {}   (when the module never rebinds `dict`)
   _NAME = <literal> at module level, bound once  ->  uses of _NAME inside functions / classes read the literal
   x: T = v  ->  x = v   (annotated assignments outside class bodies; a bare `x: T` becomes `pass`; class-level ones declare record fields)
+  a[k] = name = V   ->   name = V; a[k] = name     (chained assignment with exactly one plain name among the targets)
+  functools.partial(F, a, k=v)(x)   ->   F(a, x, k=v);  `p = functools.partial(F, ...)` bound once in a function and only ever called -> the calls are F(...)
   raise X from (A if C else B)   ->   if C: raise X from A / else: raise X from B
   try: <return / x => D[K]  /  except KeyError: <H>   ->   if K in D: <return / x =>  D[K] / else: <H>
       (one statement in the body, D an attribute or a local name - never `self` itself -, K free of calls other than id / str / repr /
@@ -292,6 +294,75 @@ class _DictCalls(ast.NodeTransformer):
         return node
 
 
+class _Chained(ast.NodeTransformer):
+    def visit_Assign(self, node):
+        self.generic_visit(node)
+        if len(node.targets) < 2:
+            return node
+        names = [t for t in node.targets if isinstance(t, ast.Name)]
+        others = [t for t in node.targets if not isinstance(t, ast.Name)]
+        if len(names) != 1 or any(isinstance(x, ast.Name) and x.id == names[0].id for t in others for x in ast.walk(t)) \
+                or any(isinstance(x, ast.Name) and x.id == names[0].id for x in ast.walk(node.value)):
+            return node
+        first = ast.copy_location(ast.Assign(targets=[names[0]], value=node.value), node)
+        rest = [ast.copy_location(ast.Assign(targets=[t], value=ast.copy_location(ast.Name(id=names[0].id, ctx=ast.Load()), node)), node) for t in others]
+        return [first] + rest
+
+
+class _PartialApply(ast.NodeTransformer):
+    """functools.partial(F, ...)(...) applied on the spot, and locals that only name such a partial and are only ever called"""
+    NAMES = ('functools.partial', 'partial')
+
+    def _is_partial(self, c):
+        return isinstance(c, ast.Call) and ast.unparse(c.func) in self.NAMES and c.args and not any(isinstance(a, ast.Starred) for a in c.args) and all(k.arg is not None for k in c.keywords) \
+            and isinstance(c.args[0], (ast.Name, ast.Attribute))
+
+    def _merge(self, part, call):
+        return ast.copy_location(ast.Call(func=part.args[0], args=list(part.args[1:]) + list(call.args), keywords=list(part.keywords) + list(call.keywords)), call)
+
+    def visit_FunctionDef(self, node):
+        import copy as _copy
+        stores = {}
+        for n in ast.walk(node):
+            if isinstance(n, ast.Name) and isinstance(n.ctx, (ast.Store, ast.Del)):
+                stores[n.id] = stores.get(n.id, 0) + 1
+        params = {a.arg for a in node.args.args + node.args.kwonlyargs + node.args.posonlyargs}
+        aliases = {}
+        for st in ast.walk(node):
+            if isinstance(st, ast.Assign) and len(st.targets) == 1 and isinstance(st.targets[0], ast.Name) and self._is_partial(st.value) \
+                    and stores.get(st.targets[0].id) == 1 and st.targets[0].id not in params:
+                nm = st.targets[0].id
+                loads = [n for n in ast.walk(node) if isinstance(n, ast.Name) and n.id == nm and isinstance(n.ctx, ast.Load)]
+                called = [n for n in ast.walk(node) if isinstance(n, ast.Call) and isinstance(n.func, ast.Name) and n.func.id == nm]
+                if loads and len(loads) == len(called):
+                    aliases[nm] = st
+        if aliases:
+            outer = self
+
+            class S(ast.NodeTransformer):
+                def visit_Call(self, c):
+                    self.generic_visit(c)
+                    if isinstance(c.func, ast.Name) and c.func.id in aliases:
+                        return outer._merge(_copy.deepcopy(aliases[c.func.id].value), c)
+                    return c
+
+                def visit_Assign(self, a):
+                    if a in aliases.values():
+                        return ast.copy_location(ast.Pass(), a)
+                    return self.generic_visit(a)
+            node = S().visit(node)
+        self.generic_visit(node)
+        return node
+
+    visit_AsyncFunctionDef = visit_FunctionDef
+
+    def visit_Call(self, node):
+        self.generic_visit(node)
+        if self._is_partial(node.func):
+            return self._merge(node.func, node)
+        return node
+
+
 class _RaiseFrom(ast.NodeTransformer):
     def visit_Raise(self, node):
         if node.exc is not None and isinstance(node.cause, ast.IfExp):
@@ -363,6 +434,12 @@ def desugar(tree):
         ast.fix_missing_locations(tree)
     if any(isinstance(n, ast.Try) and len(n.handlers) == 1 and n.handlers[0].type is not None and ast.unparse(n.handlers[0].type) == 'KeyError' for n in ast.walk(tree)):
         tree = _TryKeyError().visit(tree)
+        ast.fix_missing_locations(tree)
+    if any(isinstance(n, ast.Assign) and len(n.targets) > 1 for n in ast.walk(tree)):
+        tree = _Chained().visit(tree)
+        ast.fix_missing_locations(tree)
+    if any(isinstance(n, ast.Call) and ast.unparse(n.func) in _PartialApply.NAMES for n in ast.walk(tree)):
+        tree = _PartialApply().visit(tree)
         ast.fix_missing_locations(tree)
     if any(isinstance(n, ast.Raise) and isinstance(n.cause, ast.IfExp) for n in ast.walk(tree)):
         tree = _RaiseFrom().visit(tree)
